@@ -392,6 +392,21 @@ class MirFile:
         self.fns[pos] = f
         return f
 
+    def find_by_body(self, pattern, body_pattern):
+        """unique function whose header matches `pattern` and whose body matches `body_pattern` (macro-generated impls share one header)"""
+        hits = []
+        for pos, h in self.headers:
+            if re.search(pattern, h):
+                end = self.text.index("\n}\n", pos) + 3
+                if re.search(body_pattern, self.text[pos:end]):
+                    hits.append((pos, end))
+        if len(hits) != 1:
+            raise Unsupported(f"function pattern {pattern!r} with body {body_pattern!r} matches {len(hits)} functions")
+        pos, end = hits[0]
+        if pos not in self.fns:
+            self.fns[pos] = parse_fn(self.text[pos:end])
+        return self.fns[pos]
+
     def find_by_callee(self, callee):
         """resolve a call target written as in MIR (e.g. `zig_zag_encode`, `Murmur3PartitionerHasher::rotl64`)"""
         mt = re.match(r"<(.+) as ([\w:]+)(?:<.*>)?>::(\w+)$", strip_generics(callee))
